@@ -70,6 +70,17 @@ Example c14_glob_class_witness :
   ps_match (bs "\[n]ews") (bs "[n]ews") = true.                 (* escaped bracket *)
 Proof. vm_compute. repeat split; reflexivity. Qed.
 
+(** finding glob-class-end (open): where the class syntax differs from Redis.  The first ']'
+    ends a class and there are no escapes inside one: `h[\]]llo` is the class `\` followed by
+    the literal `]llo` (Redis: the class `]`); an unterminated class matches nothing (Redis: it
+    runs to the end of the pattern); a reversed range is empty (Redis swaps its ends).
+    [GlobSpec] states the rule as coded. *)
+Example c14_glob_class_end_refuted :
+  ps_match (bs "h[\]]llo") (bs "h]llo") = false /\ ps_match (bs "h[\]]llo") (bs "h\]llo") = true /\
+  ps_match (bs "[abc") (bs "a") = false /\ ps_match (bs "[abc") (bs "[abc") = false /\
+  ps_match (bs "[z-a]") (bs "m") = false.
+Proof. vm_compute. repeat split; reflexivity. Qed.
+
 (** 3. delivery (pubsub.rs publish after the repair 4d06fbe): the receiver list of PUBLISH is
     exactly the set of (connection, matching subscription) pairs, each once - one `message` for a
     channel subscription, one `pmessage` per matching pattern, to nobody else; the reply of PUBLISH
